@@ -73,6 +73,9 @@ Theorem tables_doc_roundtrip : forall d, schema_valid d -> exists e, doc_parse d
 Proof. exact (doc_roundtrip nstate elem_start nfeed nfin nord elem_lang elem_good). Qed.
 Theorem tables_no_silent_loss : forall d e d', doc_parse d = Some e -> doc_emit e = Some d' -> same_content d d'.
 Proof. exact (parse_loses_nothing nstate elem_start nfeed nfin nord elem_perm). Qed.
+(* C01 for whole documents: whatever is emitted from a consistent element tree is schema-valid at EVERY node *)
+Theorem tables_emitted_valid : forall e d, doc_elt_ok e -> doc_emit e = Some d -> schema_valid d.
+Proof. intros e d O E. exact (emitted_is_valid nstate elem_start nfin nord elem_lang elem_okst elem_sound e O d E). Qed.
 Theorem tables_emitted_roundtrips : forall e d, doc_elt_ok e -> doc_emit e = Some d -> exists e', doc_parse d = Some e' /\ doc_emit e' = Some d.
 Proof. exact (emitted_roundtrips nstate elem_start nfeed nfin nord elem_lang elem_okst elem_good elem_sound). Qed.
 
